@@ -104,6 +104,8 @@ def run_property(prop, tier, seed, replay=None):
     os.environ["VERIF_MAX_RESTARTS"] = "100000"
     work = os.path.join(CACHE, "work", "%s-%s" % (prop, tier))
     records, build_fail = run_programs("K", "drv_dbg.hpp", progs, cases, configs, work, exe, nshards=16, name="dbg")
+    import incoq
+    incoq_n = incoq.sample_check(rep, prop, "K", records, tier, seed, work, replay)
     os.environ.pop("VERIF_MAX_RESTARTS", None)
     for (sh_, cfg, blog) in {c: (s_, c, l) for (s_, c, l) in reversed(build_fail)}.values():
         rep.violation("debug-check driver shard %d no longer builds in configuration %s" % (sh_, cfg),
@@ -138,7 +140,7 @@ def run_property(prop, tier, seed, replay=None):
                       {"obligation": "proof:Properties_%s" % prop, "theorems": rep.broken_theorems, "log": rep.proof_log,
                        "signature": "proof:%s" % prop}, no_failing_input=not any(not nf for (_, nf) in rep.violations))
     rep.cov.update({
-        "evaluations": evaluations, "distinct_nontrivial": len(nontriv),
+        "evaluations": evaluations, "distinct_nontrivial": len(nontriv), "evaluated_inside_coq_too": incoq_n,
         "rule": "conversions layout_stride<src index type, pattern> -> layout_left/right<target index type, pattern> over ranks 0..4, extents incl. zeros, "
                 "stride tuples {canonical, one stride off by +-1, permuted, scaled, first/last only}; run as child processes in builds without NDEBUG "
                 "(abort expected iff a stride differs and rank > 0) and with NDEBUG (never). non-trivial = rank >= 2, distinct (types, extents, strides)",
